@@ -61,6 +61,29 @@ def pair_family():
     return progs
 
 
+def aba_family():
+    """A key is deleted and re-created at the SAME explicit timestamp as the generation another
+    thread has read and is about to replace (compare-and-swap, patch, increment, TTL update, upsert,
+    delete): generations are distinguished by identity, not by their timestamp."""
+    progs = []
+    t0 = NOW - 10 * E9
+    c7 = {"k": "i", "id": 0, "len": 8, "n": 7}
+    d2 = {"k": "d", "id": 0, "len": 7, "n": 2}
+    again = {"bytes": B3, "counter": c7, "doc": d2}
+    readers = {"bytes": ["cas", "cas_new", "ins_new", "ins_auto", "ttl", "del_new", "iia"],
+               "counter": ["incr", "incr2", "cas_ctr", "ttl"],
+               "doc": ["patch", "ttl", "ins_new"]}
+    for iname, rs in readers.items():
+        for dele in ("del_auto", "del_new"):
+            recreate = {"op": "insert", "k": 1, "v": again[iname], "auto": False, "tsv": t0}
+            for r in rs:
+                progs.append(("aba|%s|%s|%s" % (iname, r, dele), prog(INITS[iname], [[OPS[r]], [OPS[dele], recreate]])))
+            # and the same value again (true ABA: the compare succeeds on equal bytes)
+            same = {"op": "insert", "k": 1, "v": INITS[iname][0]["v"], "auto": False, "tsv": t0}
+            progs.append(("aba_same|%s|%s" % (iname, dele), prog(INITS[iname], [[OPS[rs[0]]], [OPS[dele], same]])))
+    return progs
+
+
 def range_family():
     progs = []
     keys = ("ka", "kb", "kc")
